@@ -29,7 +29,11 @@ pub fn run(rng: &mut Rng, n: usize, out: &mut Out, which: &str) {
             "c08" => {
                 // candidates: play-outs and small positions with heavy pieces; keep those with a mate in one (part a)
                 // or with both kinds of moves (part b)
-                let b = if rng.chance(1, 2) { g.playout(rng, 120) } else { match heavy_small(&g, rng) { Some(b) => b, None => continue } };
+                let b = match rng.below(5) {
+                    0 | 1 => g.playout(rng, 120),
+                    2 => match promo_mate_position(&g, rng) { Some(b) => { out.count("promotion_family_candidates"); b } None => continue },
+                    _ => match heavy_small(&g, rng) { Some(b) => b, None => continue },
+                };
                 let mut b = b;
                 crate::csearch::vary_counters(&mut b, rng);
                 if !crate::refchess::valid(&b) { continue; }
@@ -46,6 +50,7 @@ pub fn run(rng: &mut Rng, n: usize, out: &mut Out, which: &str) {
                 let bt = board_text(&b);
                 if m1 {
                     out.count("positions_with_mate_in_one");
+                    if ms.iter().any(|m| m.move_type == MoveType::Promotion && is_mate(&g, &b.clone_with_move(m))) { out.count("positions_with_mate_by_promotion"); }
                     for d in 1..=4u8 {
                         if d == 4 && crate::refchess::men(&b) > 7 { continue; }
                         if d == 3 && crate::refchess::men(&b) > 14 { continue; }
@@ -122,10 +127,27 @@ pub fn run(rng: &mut Rng, n: usize, out: &mut Out, which: &str) {
                 out.op(&format!("case {}", case), "ok");
                 fresh_keys(&mut st, out, "eng.new");
                 let ncmds = 1 + rng.below(3);
+                // the previous command of this engine (start, was it startpos, moves): GUIs send the whole game again with one
+                // more move, take moves back, or start another game from the same position — related commands in a row
+                let mut prev: Option<(Board, bool, Vec<Move>)> = None;
                 for ci in 0..ncmds {
                     // start: startpos, corpus FEN, or a generated valid position; counters from the interesting set
-                    let use_startpos = rng.chance(1, 3);
+                    let related = if which == "c04" && prev.is_some() && rng.chance(3, 5) { 1 + rng.below(4) } else { 0 };
+                    let mut use_startpos = rng.chance(1, 3);
                     let mut start = if use_startpos { Board::default() } else if rng.chance(1, 2) { Board::new(*rng.pick(posgen::CORPUS)) } else { g.valid_position(rng, out) };
+                    let mut forced_prefix: Vec<Move> = Vec::new();
+                    let mut replay_tail: Vec<Move> = Vec::new();
+                    if related > 0 {
+                        let (ps, pu, pm) = prev.clone().unwrap();
+                        start = ps;
+                        use_startpos = pu;
+                        match related {
+                            1 => { forced_prefix = pm.clone(); out.count("related_cmd_extension"); }                               // same game, more moves
+                            2 => { forced_prefix = pm[..pm.len() / 2].to_vec(); out.count("related_cmd_takeback"); }               // moves taken back
+                            3 => { forced_prefix = pm[..pm.len().min(rng.below(3) as usize)].to_vec(); replay_tail = pm.clone(); out.count("related_cmd_other_game_same_texts"); } // another game, same move texts later
+                            _ => { forced_prefix = pm.clone(); if !forced_prefix.is_empty() { forced_prefix.pop(); } out.count("related_cmd_last_move_replaced"); }
+                        }
+                    }
                     if !crate::refchess::valid(&start) { continue; }
                     if !use_startpos {
                         start.halfmove_clock = *rng.pick(&[0u32, 1, 49, 99, 100, 150]) as _;
@@ -136,6 +158,26 @@ pub fn run(rng: &mut Rng, n: usize, out: &mut Out, which: &str) {
                     let plies = if which == "c09" { 4 + rng.below(14) } else { rng.below(if long { 200 } else { 30 }) };
                     let mut b = start;
                     let mut played: Vec<Move> = Vec::new();
+                    for m in &forced_prefix {
+                        if g.mg.generate_moves(&b).iter().any(|x| mv_text(x) == mv_text(m)) { b.make_move(m); played.push(*m); } else { break; }
+                    }
+                    if !replay_tail.is_empty() {
+                        // a different first move, then as many of the previous game's moves (same texts, same indices) as stay legal
+                        let ms0 = g.mg.generate_moves(&b);
+                        let idx = played.len();
+                        let alt: Vec<&Move> = ms0.iter().filter(|x| idx >= replay_tail.len() || mv_text(x) != mv_text(&replay_tail[idx])).collect();
+                        if !alt.is_empty() {
+                            let m = **rng.pick(&alt);
+                            b.make_move(&m); played.push(m);
+                            while played.len() < replay_tail.len() {
+                                let want = replay_tail[played.len()];
+                                match g.mg.generate_moves(&b).into_iter().find(|x| mv_text(x) == mv_text(&want)) {
+                                    Some(m2) => { b.make_move(&m2); played.push(m2); }
+                                    None => { let ms1 = g.mg.generate_moves(&b); if ms1.is_empty() { break; } let m3 = *rng.pick(&ms1); b.make_move(&m3); played.push(m3); }
+                                }
+                            }
+                        }
+                    }
                     // C09: sometimes a LONG game in which a position occurs twice early and is approached a third time
                     // more than a hundred plies later (nothing in the rules limits how far back an occurrence may lie)
                     let mut plies = plies;
@@ -171,6 +213,7 @@ pub fn run(rng: &mut Rng, n: usize, out: &mut Out, which: &str) {
                     if !played.is_empty() { line += " moves"; for m in &played { line += " "; line += &uci_text(m); } }
                     // irregular spacing is part of the input domain
                     if rng.chance(1, 6) { line = line.replace(" ", "  "); }
+                    prev = Some((start, use_startpos, played.clone()));
                     let op = format!("eng.pos {} {} | {}", board_text(&start), played.iter().map(mv_text).collect::<Vec<_>>().join(" "), line);
                     let a = out.run(&mut st, &op);
                     if case <= 2 && ci == 0 { out.sample(format!("{} => {}", op.chars().take(400).collect::<String>(), a.chars().take(200).collect::<String>())); }
@@ -248,6 +291,38 @@ fn long_repetition_game(g: &Gen, rng: &mut Rng, start: &Board) -> Option<Vec<Mov
         }
     }
     None
+}
+
+/// a pawn one step from promotion next to a cornered king: mates by promotion (to queen AND rook, sometimes only by
+/// under-promotion), with the other promotions on the same squares as competing moves
+fn promo_mate_position(g: &Gen, rng: &mut Rng) -> Option<Board> {
+    use crate::pieces::{Color, Piece};
+    let white = rng.chance(1, 2);
+    let mut occ = [None::<(Color, Piece)>; 64];
+    let (me, opp) = if white { (Color::White, Color::Black) } else { (Color::Black, Color::White) };
+    let back = if white { 7usize } else { 0 };        // promotion rank
+    let seventh = if white { 6usize } else { 1 };
+    let kf = *rng.pick(&[0usize, 1, 6, 7, 7, 0, 3, 4]);
+    occ[back * 8 + kf] = Some((opp, Piece::King));
+    let pf = rng.below(8) as usize;
+    occ[seventh * 8 + pf] = Some((me, Piece::Pawn));
+    // my king two ranks away, somewhere near
+    let mk = (if white { 5usize } else { 2 }) * 8 + ((kf as i32 + rng.below(3) as i32 - 1).clamp(0, 7) as usize);
+    if occ[mk].is_none() { occ[mk] = Some((me, Piece::King)); } else { return None; }
+    for _ in 0..rng.below(4) {
+        let sq = rng.below(64) as usize;
+        if occ[sq].is_none() {
+            let c = if rng.chance(1, 2) { me } else { opp };
+            let p = *rng.pick(&[Piece::Pawn, Piece::Pawn, Piece::Bishop, Piece::Knight, Piece::Rook]);
+            if p == Piece::Pawn && (sq / 8 == 0 || sq / 8 == 7) { continue; }
+            occ[sq] = Some((c, p));
+        }
+    }
+    let mut pcs = [0u64; 6];
+    let (mut wbb, mut bbb) = (0u64, 0u64);
+    for sq in 0..64 { if let Some((c, p)) = occ[sq] { pcs[p.index()] |= 1 << sq; if c == Color::White { wbb |= 1 << sq } else { bbb |= 1 << sq } } }
+    let b = board_from_raw(pcs, wbb, bbb, me, 0, None, 0, 1)?;
+    if crate::refchess::valid(&b) { Some(b) } else { None }
 }
 
 fn heavy_small(g: &Gen, rng: &mut Rng) -> Option<Board> {
